@@ -16,7 +16,9 @@ Obligation: on every path to the call there is a test implying size >= k
 from ..facts import peel, strip_casts, show, walk, cond_atom
 from .common import callee_short, const_int
 
-POS_METHODS = ("substr", "compare", "erase", "insert", "replace", "at")
+POS_METHODS = ("substr", "compare", "erase", "insert", "replace", "at", "resize")
+# resize(k) with a literal k only grows or truncates; it is judged only for size()-relative arguments, where the
+# unsigned subtraction must not wrap
 
 
 _ALIAS = {}   # decl id -> X, for locals `n = X.size()` of the function being judged
